@@ -173,5 +173,14 @@ def parse_lit(t):
 def stages(tier, seed):
     cmds = workload(tier, seed)
     groups = [[c] for c in cmds]
-    return [dict(label='rel', variant='rel', groups=groups, floors=FLOORS),
-            dict(label='dbg', variant='dbg', groups=groups, floors=FLOORS)]
+    st = [dict(label='rel', variant='rel', groups=groups, floors=FLOORS),
+          dict(label='dbg', variant='dbg', groups=groups, floors=FLOORS)]
+    if tier != 'quick':
+        # the portable div_wide / div_half paths (no hardware div) and 32-bit digits, interpreted by Miri
+        from ..cross import portable
+        rnd = rng_for(seed, 'C03x', tier)
+        small = [c for c in portable(cmds) if len(c.line) < 1200 and c.line.startswith('divall')]
+        sub = rnd.sample(small, min(len(small), 1200))
+        st.append(dict(label='miri-aarch64', variant='miri-aarch64', tool='miri:aarch64', groups=[[c] for c in sub], shard_min=8, timeout=2400))
+        st.append(dict(label='miri-i686', variant='miri-i686', tool='miri:i686', groups=[[c] for c in sub], shard_min=8, timeout=2400))
+    return st
